@@ -344,9 +344,7 @@ func TestVerifC14Dht(t *testing.T) {
 	cs := vfNewCases("Run_C14", 50)
 	curDesc := map[string]any{}
 	zzc14.OnHang(func(label, stacks string) {
-		idx := cs.Add(zzc14.HangTerm("CDht"), curDesc, "hang")
-		cs.Fail(idx, "the case never settled (goroutines blocked outside synctest's view): "+label, stacks)
-		_ = cs.Flush()
+		zzc14.WriteHang(vfOutDir(), label, curDesc, stacks)
 	})
 	root := vfNewRand(seed)
 	for i := 0; i < n; i++ {
